@@ -750,6 +750,16 @@ def check_counter_with_unusable_values(h: Harness):
             continue
         h.count("counter-with-unusable-values")
         h.seen(f"unusable:{[repr(v) for v in vals]}:{multi}", nontrivial=True)
+        if not multi:
+            # "the aggregate used for comparisons is that value when maximising, its negation when minimising" -- infinities included
+            mn = trial % 4 == 0
+            wrong = [(i, vals[i], inds[i].get_fitness(problem).maximizing_aggregate) for i in range(n)
+                     if repr(float(inds[i].get_fitness(problem).maximizing_aggregate)) != repr(-vals[i] if mn else vals[i])]
+            if wrong:
+                i, v, a = wrong[0]
+                h.fail("SingleObjectiveProblem.evaluate", "aggregate-is-not-the-signed-value",
+                       f"single-objective problem (minimize={mn}): the fitness function returns {v!r} for individual {i}, the aggregate recorded for comparisons is "
+                       f"{a!r}; expected {(-v if mn else v)!r}", {"vals": [repr(x) for x in vals], "minimize": mn})
         if ev.number_of_evaluations() != len(calls) or len(calls) != n:
             h.fail("SequentialEvaluator.evaluate", "counter-differs-from-invocations",
                    f"{'multi' if multi else 'single'}-objective problem, fitness values {[repr(v) for v in vals]}: the fitness function was invoked {len(calls)} times for "
